@@ -180,6 +180,16 @@ def is_primary(rule):
 
 
 def run(ctx):
+    _run(ctx)
+    r8 = ctx.rule('R8', 'every request outside the index documents is '
+                  'authenticated before any controller runs (401 on '
+                  'failure); the request context is per request', 'DT + GD')
+    from mstatic.rules import authhook
+    authhook.auth_hook(ctx, r8)
+    authhook.request_context(ctx, r8)
+
+
+def _run(ctx):
     prog = ctx.prog
     reg = policy_registry(prog)
     methods = exposed_methods(prog)
